@@ -480,6 +480,11 @@ fn guarded_all<C>(check: &(dyn Fn(&C) -> CaseResult + Sync), case: &C) -> CaseRe
     r
 }
 
+/// `VERIF_CASE_DIVISOR=n`: random parts run 1/n of their cases (used for the second build profile).
+pub fn case_divisor() -> u64 {
+    std::env::var("VERIF_CASE_DIVISOR").ok().and_then(|v| v.parse().ok()).filter(|v| *v >= 1).unwrap_or(1)
+}
+
 /// Random search: `cases` proptest-generated cases split over WORKERS logical workers.
 pub struct RandomPart<C> {
     pub name: &'static str,
@@ -499,7 +504,7 @@ where
 
     fn run(&self, cfg: &Cfg) -> PartReport {
         let t0 = Instant::now();
-        let total = cfg.tier.pick(self.cases.0, self.cases.1);
+        let total = (cfg.tier.pick(self.cases.0, self.cases.1) / case_divisor()).max(WORKERS as u64);
         let per_worker = total.div_ceil(WORKERS as u64);
         let stop = AtomicBool::new(false);
         let failures: Mutex<Vec<(usize, Failure)>> = Mutex::new(Vec::new());
@@ -959,6 +964,8 @@ pub fn run_property(prop: &Property, cfg: &Cfg) -> i32 {
             "excluded_known": reports.iter().map(|r| r.excluded_known).sum::<u64>(),
             "known_findings_seen": known_open_ids,
             "feature_chrono": cfg!(feature = "chrono"),
+            "build_profile": if cfg!(debug_assertions) { "release + debug assertions + overflow checks" } else { "release-plain (no debug assertions, wrapping arithmetic)" },
+            "case_divisor": case_divisor(),
             "regression_inputs_replayed": regression_replays,
         },
         "assumptions": prop.assumptions,
@@ -980,6 +987,20 @@ pub fn run_property(prop: &Property, cfg: &Cfg) -> i32 {
             }
         }
     }
+    if let Some(path) = std::env::var_os("VERIF_ALT_EVIDENCE") {
+        if let Ok(text) = std::fs::read_to_string(&path) {
+            if let Ok(v) = serde_json::from_str::<Value>(&text) {
+                evidence["coverage"]["plain_profile_build"] = json!({
+                    "note": "the same check built without debug assertions and overflow checks (profile release-plain), random parts at 1/3 of the case count, run just before this one",
+                    "evaluations": v["coverage"]["evaluations"],
+                    "executions": v["coverage"]["executions"],
+                    "distinct_nontrivial": v["coverage"]["distinct_nontrivial"],
+                    "violations": v["violations"],
+                    "wall_s": v["wall_s"],
+                });
+            }
+        }
+    }
     if let Ok(text) = std::env::var("VERIF_FUZZ_STATS") {
         if let Ok(v) = serde_json::from_str::<Value>(&text) {
             evidence["coverage"]["libfuzzer_campaign"] = v;
@@ -987,7 +1008,13 @@ pub fn run_property(prop: &Property, cfg: &Cfg) -> i32 {
     }
     let evdir = verif_root().join("evidence");
     let _ = std::fs::create_dir_all(&evdir);
-    let suffix = if cfg!(feature = "chrono") { ".chrono" } else { "" };
+    let suffix = if cfg!(feature = "chrono") {
+        ".chrono"
+    } else if std::env::var_os("VERIF_ALT_RUN").is_some() {
+        ".alt"
+    } else {
+        ""
+    };
     let evpath = evdir.join(format!("{}{}.json", prop.id, suffix));
     if let Err(e) = std::fs::write(&evpath, serde_json::to_string_pretty(&evidence).unwrap()) {
         println!("cannot write evidence {}: {e}", evpath.display());
